@@ -683,6 +683,9 @@ func LiteralTable() []*Node {
 		StrSrc("100%", "100%").Hint("mayreject", "1"),
 		LongStr("%41", ""), LongStr("%u0041", "X"), LongStr("a\"b", ""), LongStr("multi\nline", ""), LongStr("", ""), Str(""),
 		LongStr("has \"} inside", "D"), StrSrc("tab\there", "tab\there"),
+		// literal (unescaped) non-ASCII text: 2-, 3- and 4-byte encodings, next to escapes that produce the same characters
+		StrSrc("caf\u00e9", "caf\u00e9"), StrSrc("\u20ac", "\u20ac"), StrSrc("%E2%82%AC = \u20ac", "\u20ac = \u20ac"), StrSrc("\u65e5\u672c\u8a9e", "\u65e5\u672c\u8a9e"),
+		StrSrc("\U0001F600!", "\U0001F600!"), StrSrc("\u043a\u043b\u044e\u0447", "\u043a\u043b\u044e\u0447"), LongStr("\u65e5\u672c\u8a9e \u20ac", ""),
 		Bool(true), Bool(false),
 	}
 }
